@@ -75,6 +75,34 @@ def values():
     ]
 
 
+import abc as _abc
+
+
+class BoxABC(_abc.ABC):
+    """a printer is registered for this ABC; VBox is only a VIRTUAL subclass (BoxABC.register), HBox one through __subclasshook__"""
+
+
+class HookABC(_abc.ABC):
+    @classmethod
+    def __subclasshook__(cls, C):
+        return True if any('is_hbox' in B.__dict__ for B in C.__mro__) else NotImplemented
+
+
+class VBox:
+    def __init__(self, payload):
+        self.payload = payload
+
+
+class HBox:
+    is_hbox = True
+
+    def __init__(self, payload):
+        self.payload = payload
+
+
+BoxABC.register(VBox)
+
+
 class ListSink:
     """a stream that is FALSY while empty (a list-backed recorder with __len__)"""
     def __init__(self):
@@ -138,7 +166,29 @@ def run_history(arg):
     def pretty_regbyname(r, ctx):
         return pp.pretty_call(ctx, type(r), r.payload)
     RegByName.__repr__ = pp.pretty_repr
+    @pp.register_pretty(BoxABC)
+    def pretty_boxabc(b, ctx):
+        return pp.pretty_call(ctx, type(b), b.payload)
+
+    @pp.register_pretty(HookABC)
+    def pretty_hookabc(b, ctx):
+        return pp.pretty_call(ctx, type(b), hooked=b.payload)
+    VBox.__repr__ = pp.pretty_repr
+    HBox.__repr__ = pp.pretty_repr
     # pretty_repr BEFORE any other entry point has resolved the deferred printer (fresh fork: nothing printed yet)
+    M.take_warnings()
+    for box in ((VBox([1, 2]), HBox('x')) if len(history) % 3 else (HBox('x'), VBox([1, 2]))):
+        try:
+            rb = repr(box)
+            wb = M.take_warnings()
+            wantb = pp.pformat(box)
+            obs['entry point calls compared'] += 1
+            if rb != wantb or wb or 'object at 0x' in rb:
+                viol.append(('entry-point-differs:pretty_repr-of-a-virtual-subclass', 'repr() of an instance whose class is a virtual subclass of an ABC with a registered printer gives %r (warnings %r), pformat gives %r' % (rb[:200], [w[1][:80] for w in wb], wantb[:200]), {'history': history}))
+            else:
+                obs['agree: pretty_repr for virtual subclasses of a registered ABC'] += 1
+        except Exception as e:
+            viol.append(('entry-point-raised', 'pretty_repr on a virtual subclass: %r' % (e,), {'history': history}))
     M.take_warnings()
     first = RegSub({'k': [1, 2]}) if len(history) % 2 else RegByName({'k': [1, 2]})
     try:
